@@ -7,6 +7,7 @@ import (
 
 	"verif/harness/internal/rep"
 	"verif/harness/internal/seqx"
+	"verif/harness/internal/shard"
 )
 
 // replayers re-run one recorded case without the explorer; they return the violations observed.
@@ -35,6 +36,16 @@ func replayFile(id, path string) int {
 			h = append(h, int(x.(float64)))
 		}
 		viol, perr = seqx.ReplayOne(spec, c["args"], h)
+	} else if wk, ok := c["worker"].(string); ok && c["index"] != nil {
+		// a case of a shard enumeration: re-enumerate in this process and run only that index
+		tier, _ := c["tier"].(string)
+		if tier == "" {
+			tier = "quick"
+		}
+		p := shard.RunInline(wk, c["args"], int64(c["index"].(float64)), tier)
+		for _, v := range p.Violations {
+			viol = append(viol, *v)
+		}
 	} else if rp, ok := replayers[id]; ok {
 		viol, perr = rp(c)
 	} else {
